@@ -50,6 +50,12 @@ ASSUMPTIONS = [
     "condition-aware tolerances",
     "C08: np.cross on two 3-lists is modelled by the explicit component formula (Core/KinOps.cross3); x**2.0 is C pow(x,2) in the "
     "Float instance and x*x in the real instance; warnings are not observed; `self.pdg in [ints]` with an unset pdg is False",
+    "C08: construction routes: a masked float entry of a constructor row counts as unset (float(np.ma.masked) is nan on the clean "
+    "tree); one-shot iterators (generator / iter / map) as rows must be rejected or handled correctly - the clean constructor "
+    "rejects them (no len()); pickle protocols 0/1 are not exercised (Python refuses them for a __slots__ class without "
+    "__getstate__); no free-text fields and no file access exist in Particle, so non-ASCII text and relative file names do not "
+    "apply - the environment device (temp cwd, np.seterr(all='warn'), print options, advanced random / np.random states) only "
+    "checks that results do not depend on it and that it is left as found; in-place writes to data_ are not part of the interface",
     "C08: 'required input' of a quantity = the inputs of its definition in the property statement (hand-written table, equal to the "
     "extracted guard sets by theorem guard_table); E < 0 is read as outside 'finite four-momenta' (monitor Props/C08/NegE.lean)",
 ]
@@ -117,6 +123,314 @@ def call(p, m):
 def real_all(v, pdg, via_array=False):
     p = make_particle(v, pdg, via_array)
     return [call(p, m) for m in METHODS]
+
+
+# ------------------------------------------------------------------ construction routes (array-like rows, copies, environment)
+# A "route" says HOW the particle under test comes into being:
+#   fmt  : None (setters) | "Oscar2013" | "Oscar2013Extended" | "JETSCAPE" | "ASCII"  (constructor from a row)
+#   rep  : representation of the row (list, tuple, ndarray float/object/str/float32, ndarray subclass, masked array with the
+#          unset float fields MASKED over a finite hidden value, strings decorated with blanks / CR LF, one-shot iterators)
+#   copy : None | "copy" | "deepcopy" | "pickle0".."pickle5"  applied to the finished object before it is used
+#   rowcopy : the same devices applied to the input row before it is handed to the constructor
+# Whatever the route, everything observable must be what the attribute values say (same oracle / model as always).
+ROW_REPS = ["list", "tuple", "nd_float", "nd_object", "nd_str", "list_str", "list_str_ws", "masked", "masked_sentinel",
+            "subclass", "nd_float32"]
+ONE_SHOT_REPS = ["generator", "iter", "map"]   # no len(): the constructor has to reject them (or treat them correctly)
+# pickle protocols 0/1 are left out: Python itself refuses them for a __slots__ class without __getstate__ (clean tree too)
+COPY_DEVICES = [None, None, "copy", "deepcopy", "pickle2", "pickle3", "pickle4", "pickle5"]
+EXT_TAIL = ["ncoll", "form_time", "xsecfac", "proc_id_origin", "proc_type_origin", "t_last_coll", "pdg_mother1",
+            "pdg_mother2", "baryon_number", "strangeness"]
+FLOAT_COLS = set(ATTRS) | {"mass", "form_time", "xsecfac", "t_last_coll", "weight"}
+
+
+class _RowSub(np.ndarray):
+    """a do-nothing ndarray subclass"""
+
+
+def apply_copy(obj, how):
+    import copy
+    import pickle
+    if how is None:
+        return obj
+    if how == "copy":
+        return copy.copy(obj)
+    if how == "deepcopy":
+        return copy.deepcopy(obj)
+    if how.startswith("pickle"):
+        return pickle.loads(pickle.dumps(obj, protocol=int(how[6:])))
+    raise ValueError(how)
+
+
+def gen_route(rng, one_shot=False):
+    fmt = rng.choice(["Oscar2013", "Oscar2013", "Oscar2013Extended", "JETSCAPE", "ASCII", "ASCII", None])
+    route = dict(fmt=fmt, rep=None, copy=rng.choice(COPY_DEVICES), rowcopy=None)
+    if fmt is None:
+        if route["copy"] is None:
+            route["copy"] = rng.choice(["copy", "deepcopy", "pickle2", "pickle5"])
+        return route
+    route["rep"] = rng.choice(ONE_SHOT_REPS) if one_shot else rng.choice(ROW_REPS)
+    route["rowcopy"] = rng.choice([None, None, None, "copy", "deepcopy", "pickle4"])
+    if fmt == "Oscar2013Extended":
+        route["ncols"] = rng.choice([20, 21, 22])
+    if fmt == "ASCII":
+        cols = [c for c in ATTRS if rng.random() < 0.8] + [c for c in ("pdg", "mass", "ID", "charge") if rng.random() < 0.5]
+        rng.shuffle(cols)
+        route["cols"] = cols or ["px"]
+    return route
+
+
+def route_row(v, pdg, route):
+    """column names, python values of the row (floats, NaN = unset; ints), and the attribute values / pdg the particle
+    must end up with"""
+    fmt = route["fmt"]
+    base = dict(mass=0.138, ID=7, charge=1, ncoll=3, form_time=0.5, xsecfac=1.0, proc_id_origin=2, proc_type_origin=5,
+                t_last_coll=0.25, pdg_mother1=113, pdg_mother2=0, baryon_number=0, strangeness=0, status=11,
+                pdg=int(pdg) if pdg is not None else 211)
+    base.update({k: float(v.get(k, NAN)) for k in ATTRS})
+    if fmt == "Oscar2013":
+        cols = ["t", "x", "y", "z", "mass", "E", "px", "py", "pz", "pdg", "ID", "charge"]
+    elif fmt == "Oscar2013Extended":
+        cols = (["t", "x", "y", "z", "mass", "E", "px", "py", "pz", "pdg", "ID", "charge"] + EXT_TAIL)[:route.get("ncols", 22)]
+    elif fmt == "JETSCAPE":
+        cols = ["ID", "pdg", "status", "E", "px", "py", "pz"]
+    else:
+        cols = list(route["cols"])
+    vals = [base[c] for c in cols]
+    exp = {k: (base[k] if k in cols else NAN) for k in ATTRS}
+    exp_pdg = base["pdg"] if "pdg" in cols else None
+    return cols, vals, exp, exp_pdg
+
+
+def represent_row(cols, vals, rep, rng_salt=0):
+    """the row in representation `rep`; returns (object, values as the representation carries them)"""
+    carried = list(vals)
+    isf = [c in FLOAT_COLS for c in cols]
+
+    def strs(ws=False):
+        out = []
+        for j, (x, f) in enumerate(zip(vals, isf)):
+            t = (repr(float(x)) if f else str(int(x)))
+            if ws:
+                t = ["  " + t, t + " ", t + "\r\n", "\t" + t + "  ", t + "\r"][(j + rng_salt) % 5]
+            out.append(t)
+        return out
+    if rep == "list":
+        return list(vals), carried
+    if rep == "tuple":
+        return tuple(vals), carried
+    if rep == "nd_float":
+        return np.array([float(x) for x in vals], dtype=float), carried
+    if rep == "nd_object":
+        return np.array(list(vals), dtype=object), carried
+    if rep == "nd_str":
+        return np.array(strs()), carried
+    if rep == "list_str":
+        return strs(), carried
+    if rep == "list_str_ws":
+        return strs(ws=True), carried
+    if rep == "subclass":
+        return np.array([float(x) for x in vals], dtype=float).view(_RowSub), carried
+    if rep == "nd_float32":
+        arr = np.array([float(x) for x in vals], dtype=np.float32)
+        carried = [(float(a) if f else x) for a, x, f in zip(arr, vals, isf)]
+        return arr, carried
+    if rep in ("masked", "masked_sentinel"):
+        mask = [bool(f and x != x) for x, f in zip(vals, isf)]
+        hidden = [(-999.0 if rep == "masked_sentinel" else 1.5 + 0.25 * j) if m else float(x) for j, (x, m) in enumerate(zip(vals, mask))]
+        if rep == "masked_sentinel":
+            return np.ma.masked_equal(np.array(hidden, dtype=float), -999.0), carried
+        return np.ma.array(np.array(hidden, dtype=float), mask=mask), carried
+    if rep == "generator":
+        return (x for x in list(vals)), carried
+    if rep == "iter":
+        return iter(list(vals)), carried
+    if rep == "map":
+        return map(lambda x: x, list(vals)), carried
+    raise ValueError(rep)
+
+
+def build_particle(v, pdg, route, salt=0):
+    """-> (particle, expected attribute values, expected pdg, info).  Raises whatever the constructor raises."""
+    from sparkx.Particle import Particle
+    if not route or route.get("fmt") is None:
+        obj = make_particle(v, pdg)
+        exp, exp_pdg, info = {k: v.get(k, NAN) for k in ATTRS}, pdg, {}
+    else:
+        cols, vals, exp, exp_pdg = route_row(v, pdg, route)
+        row, carried = represent_row(cols, vals, route["rep"], salt)
+        for c, x in zip(cols, carried):
+            if c in exp:
+                exp[c] = float(x)
+        row = apply_copy(row, route.get("rowcopy")) if route["rep"] not in ONE_SHOT_REPS else row
+        before = _row_snapshot(row)
+        with warnings.catch_warnings():
+            warnings.simplefilter("ignore")
+            if route["fmt"] == "ASCII":
+                obj = Particle("ASCII", row, list(cols))
+            else:
+                obj = Particle(route["fmt"], row)
+        info = dict(row_modified=(before is not None and not _row_equal(before, _row_snapshot(row))))
+    try:
+        obj = apply_copy(obj, route.get("copy") if route else None)
+    except Exception as e:  # noqa: BLE001
+        raise CopyFailed(f"{route.get('copy')} of the particle raises {type(e).__name__}: {e}") from e
+    return obj, exp, exp_pdg, info
+
+
+class CopyFailed(Exception):
+    pass
+
+
+def _row_snapshot(row):
+    import copy
+    if isinstance(row, np.ma.MaskedArray):
+        return (np.array(row.data, copy=True), np.array(np.ma.getmaskarray(row), copy=True))
+    if isinstance(row, (np.ndarray, list, tuple)):
+        return copy.deepcopy(row)
+    return None
+
+
+def _row_equal(a, b):
+    if isinstance(a, tuple) and len(a) == 2 and isinstance(a[0], np.ndarray) and isinstance(b, tuple):
+        return bool(np.array_equal(a[0], b[0], equal_nan=True) and np.array_equal(a[1], b[1]))
+    if isinstance(a, np.ndarray):
+        if a.dtype.kind == "f":
+            return bool(np.array_equal(a, b, equal_nan=True))
+        a, b = a.tolist(), np.asarray(b).tolist()
+    return all((x != x and y != y) or x == y for x, y in zip(a, b)) and len(a) == len(b)
+
+
+class EnvDevice:
+    """Run a block in a hostile-but-legal environment: fresh temp dir as cwd, np.seterr(all="warn"), odd print options,
+    advanced `random` / `np.random` global states.  `changed()` afterwards lists what the block altered."""
+
+    def __init__(self, salt):
+        self.salt = salt
+
+    def __enter__(self):
+        import os
+        import random
+        import tempfile
+        import sparkx.Particle  # noqa: F401  (first import of the package happens outside the observed block)
+        self.saved = (os.getcwd(), np.geterr(), np.get_printoptions(), random.getstate(), np.random.get_state())
+        self.tmp = tempfile.mkdtemp(prefix="c08_env_")
+        os.chdir(self.tmp)
+        np.seterr(all="warn")
+        np.set_printoptions(precision=2, suppress=True, threshold=5)
+        random.seed(1000 + self.salt)
+        [random.random() for _ in range(self.salt % 17)]
+        np.random.seed(2000 + self.salt)
+        np.random.random(self.salt % 13)
+        self.inside = (os.getcwd(), np.geterr(), np.get_printoptions(), random.getstate(), np.random.get_state())
+        return self
+
+    def changed(self):
+        import os
+        import random
+        now = (os.getcwd(), np.geterr(), np.get_printoptions(), random.getstate(), np.random.get_state())
+        names = ["cwd", "np.geterr", "np.printoptions", "random-state", "np.random-state"]
+        out = []
+        for nm, a, b in zip(names, self.inside, now):
+            same = (a[0] == b[0] and all(np.array_equal(x, y) for x, y in zip(a[1:], b[1:]))) if nm == "np.random-state" else a == b
+            if not same:
+                out.append(nm)
+        if os.listdir(self.tmp):
+            out.append("files-written-into-cwd")
+        return out
+
+    def __exit__(self, *a):
+        import os
+        import random
+        import shutil
+        os.chdir(self.saved[0])
+        np.seterr(**self.saved[1])
+        np.set_printoptions(**self.saved[2])
+        random.setstate(self.saved[3])
+        np.random.set_state(self.saved[4])
+        shutil.rmtree(self.tmp, ignore_errors=True)
+
+
+def call_env(p, m):
+    """like call(), but without shielding the numpy error state (the environment device decides it)"""
+    try:
+        with warnings.catch_warnings():
+            warnings.simplefilter("ignore")
+            r = getattr(p, m)()
+    except Exception as e:  # noqa: BLE001
+        return ("raise", type(e).__name__)
+    if isinstance(r, np.ndarray):
+        return ("vec", [float(x) for x in r]) if r.shape == (3,) else ("other", repr(r))
+    try:
+        return ("val", float(r))
+    except Exception:  # noqa: BLE001
+        return ("other", repr(r))
+
+
+def judge_route(v, pdg, route, salt=0, env=False):
+    """-> (status, items, expected values, expected pdg, results) ; status in ok|rejected|inadmissible.
+    items: property failures [(key, what, detail)], keyed `input-form:…` / `copied:…` / `environment:…` when the same
+    attribute values given through the plain setters do not show them."""
+    one_shot = bool(route and route.get("rep") in ONE_SHOT_REPS)
+    if route and route.get("fmt") is not None and not one_shot:
+        try:  # admissibility: the same row as a plain list must be accepted
+            build_particle(v, pdg, dict(route, rep="list", copy=None, rowcopy=None), salt)
+        except Exception:  # noqa: BLE001
+            return "inadmissible", [], None, None, None
+    envchg = []
+    try:
+        if env:
+            with EnvDevice(salt) as dev:
+                obj, exp, exp_pdg, info = build_particle(v, pdg, route, salt)
+                res = {m: call_env(obj, m) for m in METHODS}
+                envchg = dev.changed()
+        else:
+            obj, exp, exp_pdg, info = build_particle(v, pdg, route, salt)
+            res = {m: call(obj, m) for m in METHODS}
+    except CopyFailed as e:
+        _, _, exp, exp_pdg = route_row(v, pdg, route) if route and route.get("fmt") else (None, None, v, pdg)
+        return "ok", [("copied:%s:copy-raises" % route.get("copy"), str(e), dict(values=exp, pdg=exp_pdg))], exp, exp_pdg, None
+    except Exception as e:  # noqa: BLE001
+        if one_shot:
+            return "rejected", [], None, None, None
+        _, _, exp, exp_pdg = route_row(v, pdg, route) if route and route.get("fmt") else (None, None, v, pdg)
+        return "ok", [("input-form:%s/%s:constructor-raises" % (route.get("fmt"), route.get("rep")),
+                       f"Particle({route.get('fmt')!r}, <{route.get('rep')} row>) raises {type(e).__name__}: {e} although the same row as a list is accepted",
+                       dict(values=exp, pdg=exp_pdg))], exp, exp_pdg, None
+    items = []
+    plain = dict(zip(METHODS, real_all(exp, exp_pdg)))
+    plain_keys = {k for k, _, _ in check_particle(exp, exp_pdg, plain)}
+    for key, what, detail in check_particle(exp, exp_pdg, res):
+        if key in plain_keys:
+            items.append((key, what, detail))
+            continue
+        label = None
+        if route.get("copy"):
+            try:
+                o2, _, _, _ = build_particle(v, pdg, dict(route, copy=None), salt)
+                r2 = {m: call(o2, m) for m in METHODS}
+                if not any(k == key for k, _, _ in check_particle(exp, exp_pdg, r2)):
+                    label = "copied:%s" % route["copy"]
+            except Exception:  # noqa: BLE001
+                pass
+        if label is None and env:
+            try:
+                o2, _, _, _ = build_particle(v, pdg, route, salt)
+                r2 = {m: call(o2, m) for m in METHODS}
+                if not any(k == key for k, _, _ in check_particle(exp, exp_pdg, r2)):
+                    label = "environment"
+            except Exception:  # noqa: BLE001
+                pass
+        if label is None:
+            label = "input-form:%s/%s" % (route.get("fmt"), route.get("rep"))
+        items.append((f"{label}:{key}", what + f" — particle built via route {route}; the same attribute values given through "
+                      f"the setters give {plain.get(key.split('-')[0], 'a correct result')}", detail))
+    if info.get("row_modified"):
+        items.append(("input-form:%s/%s:input-row-modified" % (route.get("fmt"), route.get("rep")),
+                      f"the constructor modified the row it was given (route {route})", dict(values=exp, pdg=exp_pdg)))
+    for what in envchg:
+        items.append((f"environment:{what}-changed-by-call", f"constructing the particle and calling the 11 methods changed {what}",
+                      dict(values=exp, pdg=exp_pdg)))
+    return "ok", items, exp, exp_pdg, res
 
 
 def isfinite(x):
@@ -409,6 +723,9 @@ def seq_start(start):
         return Particle(), {k: NAN for k in ATTRS}, None
     v = {k: float(x) for k, x in start["values"].items()}
     pdg = start.get("pdg")
+    if mode == "route":
+        obj, ev, epdg, _ = build_particle(v, pdg, start["route"], start.get("salt", 0))
+        return obj, dict(ev), epdg
     return make_particle(v, pdg, via_array=(mode == "Oscar2013")), {k: v.get(k, NAN) for k in ATTRS}, pdg
 
 
@@ -429,7 +746,7 @@ def exec_sequence(start, steps):
             elif attr == "pdg":
                 pdg = int(value)
         elif st[0] == "copy":
-            obj = copy.deepcopy(obj)
+            obj = apply_copy(obj, st[1] if len(st) > 1 else "deepcopy")
         elif st[0] == "call":
             obs.append((i, dict(cur), pdg, {m: call(obj, m) for m in st[1]}))
         else:
@@ -453,10 +770,20 @@ def gen_value(rng, old):
 
 
 def gen_sequence(rng):
-    mode = rng.choice(["empty", "setters", "setters", "Oscar2013"])
+    mode = rng.choice(["empty", "setters", "setters", "Oscar2013", "route", "route"])
     if mode == "empty":
         start = dict(mode="empty")
         cur = {k: NAN for k in ATTRS}
+    elif mode == "route":
+        v, _ = rng.choice([gen_generic, gen_generic, gen_signs])(rng)
+        for k in rng.sample(ATTRS, rng.choice([0, 0, 1, 3])):
+            v[k] = NAN
+        start = dict(mode="route", values=dict(v), pdg=rng.choice(PDG_CHOICES), route=gen_route(rng), salt=rng.randrange(100))
+        try:
+            _, cur, _ = seq_start(start)
+        except Exception:  # noqa: BLE001
+            start = dict(mode="setters", values=dict(v), pdg=start["pdg"])
+            cur = dict(v)
     else:
         v, _ = rng.choice([gen_generic, gen_generic, gen_signs])(rng)
         if mode == "setters":
@@ -490,7 +817,7 @@ def gen_sequence(rng):
         elif r < 0.90:
             steps.append(["set", "pdg", rng.choice(PDG_CHOICES)])
         else:
-            steps.append(["copy"])
+            steps.append(["copy", rng.choice(["copy", "deepcopy", "pickle2", "pickle5"])])
         if rng.random() < 0.75:
             add_call()
     if steps[-1][0] != "call":
@@ -553,10 +880,18 @@ def shrink_sequence(start, steps, key):
                     break
     if start.get("mode") != "empty":
         # move the start values into explicit setter steps, then drop what is not needed
-        pre = [["set", k, x] for k, x in start["values"].items() if x == x]
+        try:
+            _, cur0, pdg0 = seq_start(start)
+        except Exception:  # noqa: BLE001
+            cur0, pdg0 = start["values"], start.get("pdg")
+        if start.get("mode") == "route":
+            start_plain = dict(mode="setters", values=dict(cur0), pdg=pdg0)
+            if fails(start_plain, steps):
+                start = start_plain
+        pre = [["set", k, x] for k, x in (cur0 if start.get("mode") != "route" else {}).items() if x == x]
         if start.get("pdg") is not None:
             pre.append(["set", "pdg", start["pdg"]])
-        if fails(dict(mode="empty"), pre + steps):
+        if start.get("mode") != "route" and fails(dict(mode="empty"), pre + steps):
             start, steps = dict(mode="empty"), pre + steps
             changed = True
             while changed:
@@ -575,6 +910,30 @@ def shrink_sequence(start, steps, key):
                     steps = cand
                     break
     return start, steps
+
+
+def shrink_route(v, pdg, route, salt, env, key):
+    def fails(v_, r_, e_):
+        try:
+            return any(k == key for k, _, _ in judge_route(v_, pdg, r_, salt, e_)[1])
+        except Exception:  # noqa: BLE001
+            return False
+    route = dict(route)
+    if env and not key.startswith("environment") and fails(v, route, False):
+        env = False
+    for fld in ("rowcopy", "copy"):
+        if route.get(fld) and not key.startswith("copied") and fails(v, dict(route, **{fld: None}), env):
+            route[fld] = None
+    v = dict(v)
+    for k in ATTRS:
+        x = v.get(k, NAN)
+        if x != x:
+            continue
+        for cand in (float("%.1g" % x), float("%.3g" % x)):
+            if cand != x and fails(dict(v, **{k: cand}), route, env):
+                v[k] = cand
+                break
+    return v, route, env
 
 
 def corpus_sequences():
@@ -710,7 +1069,15 @@ def _show(r):
 def judge_alias(particles, ops):
     """particles: [{"values":…, "pdg":…}], ops: ["call", particle index, member] | ["mutate", held index, how]
     -> [(op index, key, what, detail)]"""
-    objs = [make_particle({k: float(x) for k, x in q["values"].items()}, q.get("pdg")) for q in particles]
+    objs, exps = [], []
+    for q in particles:
+        v_ = {k: float(x) for k, x in q["values"].items()}
+        if q.get("route"):
+            o_, ev_, ep_, _ = build_particle(v_, q.get("pdg"), q["route"], q.get("salt", 0))
+        else:
+            o_, ev_, ep_ = make_particle(v_, q.get("pdg")), v_, q.get("pdg")
+        objs.append(o_)
+        exps.append((ev_, ep_))
     stored = [np.array(o.data_, copy=True) for o in objs]
     held = []   # [op index, particle index, member, object, snapshot at return time, edited by the caller?]
     out = []
@@ -770,12 +1137,11 @@ def judge_alias(particles, ops):
     # the values the caller still holds must still satisfy the definition (kinematic methods only)
     for h in held:
         if h[2] in METHODS and not h[5] and isinstance(h[3], np.ndarray) and h[3].shape == (3,):
-            q = particles[h[1]]
-            v = {k: float(x) for k, x in q["values"].items()}
-            res = dict(zip(METHODS, real_all(v, q.get("pdg"))))
-            ok_fresh = not any(k.startswith(h[2]) for k, _, _ in check_particle(v, q.get("pdg"), res))
+            v, vp = exps[h[1]]
+            res = dict(zip(METHODS, real_all(v, vp)))
+            ok_fresh = not any(k.startswith(h[2]) for k, _, _ in check_particle(v, vp, res))
             res[h[2]] = ("vec", [float(x) for x in h[3]])
-            items = [it for it in check_particle(v, q.get("pdg"), res) if it[0].startswith(h[2])]
+            items = [it for it in check_particle(v, vp, res) if it[0].startswith(h[2])]
             if items and ok_fresh:
                 bad(len(ops) - 1, f"aliasing:{h[2]}:held-result-no-longer-satisfies-definition",
                     f"the array returned by {h[2]}() for particle {h[1]} (op {h[0]}) now reads {_show(h[3])}: {items[0][1]}")
@@ -791,7 +1157,14 @@ def gen_alias_case(rng, members):
         v["E"] = math.sqrt(1.0 + v["px"] ** 2 + v["py"] ** 2 + v["pz"] ** 2)
         if rng.random() < 0.15:
             v[rng.choice(ATTRS)] = NAN
-        particles.append(dict(values=v, pdg=rng.choice([211, 22, None])))
+        q = dict(values=v, pdg=rng.choice([211, 22, None]))
+        if rng.random() < 0.35:
+            q.update(pdg=rng.choice([211, 22]), route=gen_route(rng), salt=rng.randrange(100))
+            try:
+                build_particle(v, q["pdg"], q["route"], q["salt"])
+            except Exception:  # noqa: BLE001
+                q.pop("route")
+        particles.append(q)
     pool = list(members) * 3 + METHODS
     ops, ncall = [], 0
     for _ in range(rng.randint(2, 9)):
@@ -842,7 +1215,10 @@ def correspond(ctx):
                 "negative energies, every sign combination (negative / zero / positive) of (t,z) and (E,pz) with |z| <,==,> |t| "
                 "(random + an exhaustive 12x12 grid), all 2^8 unset subsets x pdg set/unset/massless; all 11 methods per particle; "
                 "plus long-lived objects: random histories of setter assignments (all settable attributes, incl. back to unset), "
-                "deepcopies and method calls on ONE object, every call judged on the current attribute values; "
+                "copies (copy / deepcopy / pickle round trip) and method calls on ONE object, every call judged on the current attribute values; "
+                "every third particle is built through a constructor row (Oscar2013 / Oscar2013Extended / JETSCAPE / ASCII) given as list, "
+                "tuple, ndarray of float / object / str / float32, ndarray subclass, masked array (unset float fields masked over a hidden "
+                "finite value), strings with blanks / CR LF, and / or replaced by a copy before use; "
                 "non-trivial = at least one method returns a finite value, a vector or raises (i.e. not everything unset); "
                 "distinct by the bit patterns of the 8 attributes + pdg")
     fallback = getattr(ctx, "translator_fallback", False)
@@ -851,7 +1227,7 @@ def correspond(ctx):
         n = max(n, 20000)
     cases = []
     for case in corpus():
-        if case.get("kind") not in ("sequence", "alias"):
+        if case.get("kind") not in ("sequence", "alias", "route"):
             cases.append((dict(case["values"]), case.get("pdg"), "corpus"))
     cases += sign_grid_cases()
     gens = [gen_generic] * 4 + [gen_ultra] * 2 + [gen_boundary] * 3 + [gen_negE] + [gen_signs] * 2
@@ -863,12 +1239,26 @@ def correspond(ctx):
         v, _ = gen_generic(rng)
         v[rng.choice(ATTRS)] = rng.choice([math.inf, -math.inf])
         cases.append((v, gen_pdg(rng), "inf-input"))
-    lines = [enc(v, pdg) for v, pdg, _ in cases]
+    # every third particle comes into being through a constructor row in some array-like representation and / or is
+    # replaced by a copy (copy / deepcopy / pickle round trip) before use; the model sees the attribute values it must have
+    built = []
+    for i, (v, pdg, tag) in enumerate(cases):
+        route, obj = None, None
+        if i % 3 == 0:
+            route = gen_route(rng)
+            try:
+                obj, ev, epdg, _ = build_particle(v, pdg, route, i)
+            except Exception:  # noqa: BLE001  (e.g. an invalid pdg code in a JETSCAPE row; judged by the oracle in search)
+                route, obj = None, None
+        if obj is None:
+            obj, ev, epdg = make_particle(v, pdg), v, pdg
+        built.append((obj, ev, epdg, route))
+    lines = [enc(ev, epdg) for _, ev, epdg, _ in built]
     outs = common.run_driver("C08", lines)
     nbad = 0
-    for i, ((v, pdg, tag), out) in enumerate(zip(cases, outs)):
-        via_array = (i % 7 == 0)
-        real = real_all(v, pdg, via_array)
+    for i, ((v0, pdg0, tag), (obj, v, pdg, route), out) in enumerate(zip(cases, built, outs)):
+        via_array = route is not None
+        real = [call(obj, m) for m in METHODS]
         model = parse_model(out)
         sig = "".join(kind_of(r)[0] for r in real)
         nontriv = any(kind_of(r) in ("fin", "vec", "raise") for r in real)
@@ -878,7 +1268,7 @@ def correspond(ctx):
         ctx.count("cat/" + tag)
         ctx.count("sig/" + sig)
         if via_array:
-            ctx.count("built-from-Oscar2013-array")
+            ctx.count("route/%s/%s/copy=%s" % (route.get("fmt"), route.get("rep"), route.get("copy")))
         if model is None:
             bad = ["(driver answer unparsable: %s)" % out[:80]]
         else:
@@ -888,8 +1278,9 @@ def correspond(ctx):
             nbad += 1
             j = METHODS.index(bad[0]) if bad[0] in METHODS else 0
             ctx.brk("correspondence-broken",
-                    f"{bad}: code {real[j]} vs model {model[j] if model else out[:60]} on {v} pdg={pdg} [{tag}]",
-                    case=dict(values={k: f2h(v.get(k, NAN)) for k in ATTRS}, floats=v, pdg=pdg, category=tag, methods=bad))
+                    f"{bad}: code {real[j]} vs model {model[j] if model else out[:60]} on {v} pdg={pdg} [{tag}] route={route}",
+                    case=dict(values={k: f2h(v.get(k, NAN)) for k in ATTRS}, floats=v, pdg=pdg, category=tag, methods=bad,
+                              route=route, salt=i))
     ctx.cov["correspondence_cases"] = len(cases)
     # ---- long-lived objects: the model on the CURRENT attribute values vs the object with a history
     seqs = [(c["start"], c["steps"], "corpus") for c in corpus_sequences()]
@@ -1199,10 +1590,23 @@ def search(ctx, budget_s):
     t0 = time.time()
     n = 0
     found = {}
+    per_family = {}
+
+    def admit(key):
+        """one replay per distinct key, at most 6 keys per family (a broken construction route or copy makes every
+        method fail; a handful of concrete inputs says it all)"""
+        if key in found:
+            return False
+        fam = key.split(":")[0] if ":" in key else ("instance-reuse" if key.startswith("instance-reuse") else "plain")
+        if fam != "plain" and per_family.get(fam, 0) >= 6:
+            found[key] = 1
+            return False
+        per_family[fam] = per_family.get(fam, 0) + 1
+        return True
 
     def report(items, v, pdg, tag):
         for key, what, detail in items:
-            if key in found:
+            if not admit(key):
                 continue
             sv, sp = shrink(v, pdg, key)
             items2 = [it for it in check_particle(sv, sp) if it[0] == key]
@@ -1214,7 +1618,7 @@ def search(ctx, budget_s):
 
     # corpus first
     for case in corpus():
-        if case.get("kind") in ("sequence", "alias"):
+        if case.get("kind") in ("sequence", "alias", "route"):
             continue
         v = {k: float(x) for k, x in case["values"].items()}
         report(check_particle(v, case.get("pdg")), v, case.get("pdg"), "corpus")
@@ -1236,7 +1640,7 @@ def search(ctx, budget_s):
     for start, steps, tag in seqs:
         nsteps += sum(1 for st in steps if st[0] == "call")
         for i, key, what, detail in judge_sequence(start, steps):
-            if key in found:
+            if not admit(key):
                 continue
             found[key] = 1
             st2, sp2 = shrink_sequence(start, steps, key)
@@ -1257,7 +1661,7 @@ def search(ctx, budget_s):
         acases += [gen_alias_case(rng, members) + ("random",) for _ in range(ctx.n(120, 3000))]
     for particles, ops, tag in acases:
         for i, key, what, detail in judge_alias(particles, ops):
-            if key in found:
+            if not admit(key):
                 continue
             found[key] = 1
             ps2, os2 = shrink_alias(particles, ops, key)
@@ -1269,6 +1673,35 @@ def search(ctx, budget_s):
         ctx.case(("oracle-alias", json.dumps([particles, ops], sort_keys=True, default=str)), True)
         n += 1
     ctx.count("oracle/aliasing-call-sequences", len(acases))
+    # construction routes: array-like constructor rows, copies of rows and of particles, one-shot iterators, hostile
+    # process environment (cwd, numpy error state / print options, global random states)
+    stat = {}
+    vgens = [gen_generic] * 3 + [gen_signs] * 2 + [gen_boundary, gen_ultra]
+    for i in range(ctx.n(500, 15000)):
+        v, tag = rng.choice(vgens)(rng)
+        for k in rng.sample(ATTRS, rng.choice([0, 0, 1, 2, 4])):
+            v[k] = NAN
+        pdg = rng.choice(PDG_CHOICES)
+        route = gen_route(rng, one_shot=(i % 12 == 0))
+        env = (i % 4 == 0)
+        status, items, ev, epdg, _res = judge_route(v, pdg, route, i, env)
+        stat_key = f"{status}/{route.get('fmt')}/{route.get('rep')}"
+        stat[stat_key] = stat.get(stat_key, 0) + 1
+        ctx.case(("oracle-route", json.dumps([v, pdg, route, env], sort_keys=True, default=str)), status == "ok")
+        n += 1
+        for key, what, detail in items:
+            if not admit(key):
+                continue
+            found[key] = 1
+            v2, route2, env2 = shrink_route(v, pdg, route, i, env, key)
+            again = [it for it in judge_route(v2, pdg, route2, i, env2)[1] if it[0] == key]
+            if again:
+                key, what, detail = again[0]
+            ctx.violation(key, what, dict(input=dict(kind="route", values=v2, pdg=pdg, route=route2, salt=i, env=env2,
+                                                     category="route/" + tag),
+                                          detail=detail, how_to_replay="./check C08 --replay <this file>"))
+    ctx.cov["route_outcomes"] = dict(sorted(stat.items()))
+    ctx.count("oracle/routes", sum(stat.values()))
     ctx.count("oracle/history-call-steps", nsteps)
     limit = ctx.n(3000, 200000)
     gens = [gen_generic] * 3 + [gen_ultra] * 2 + [gen_boundary] * 4 + [gen_negE] + [gen_signs] * 3
@@ -1344,6 +1777,18 @@ def replay(ctx, path):
         return 1
     if inp.get("kind") == "sequence":
         return replay_sequence(ctx, path, inp)
+    if inp.get("kind") == "route":
+        v = {k: float(x) for k, x in inp["values"].items()}
+        status, items, ev, epdg, res = judge_route(v, inp.get("pdg"), inp["route"], inp.get("salt", 0), inp.get("env", False))
+        print(f"[C08] route {inp['route']} env={inp.get('env', False)} values {v} pdg {inp.get('pdg')}")
+        print(f"[C08] outcome {status}; attribute values the particle must have: {ev}; results: {res}")
+        if items:
+            print(f"VIOLATION property=C08 replay={path}")
+            for key, what, _ in items:
+                print(f"  [{key}] {what}")
+            return 1
+        print("[C08] replay: property holds for this construction route now")
+        return 0
     if inp.get("kind") == "alias":
         print(f"[C08] non-scalar returning members on this tree: {discover_nonscalar_members()}")
         for j, q in enumerate(inp["particles"]):
